@@ -8,6 +8,7 @@ structure DSt where
   descs : List Desc := []
   behC : List (Nat × Nat × Outcome) := []
   behClose : List (Nat × Nat) := []
+  behNil : List (Nat × Nat × Nat) := []
   st : State := {}
   built : Bool := false
 
@@ -15,7 +16,10 @@ def mkBeh (d : DSt) : Beh :=
   { ctor := fun c n => match d.behC.find? (fun e => e.1 == c && e.2.1 == n) with
       | some e => e.2.2
       | none => .ok,
-    close := fun c n => d.behClose.any (fun e => e.1 == c && e.2 == n) }
+    close := fun c n => d.behClose.any (fun e => e.1 == c && e.2 == n),
+    nilField := fun c n => match d.behNil.find? (fun e => e.1 == c && e.2.1 == n) with
+      | some e => some e.2.2
+      | none => none }
 
 def showLayer : Layer → String
   | .build => "build" | .resolution => "resolution" | .invocation => "invocation" | .panicL => "panic"
@@ -117,6 +121,10 @@ def step (d : DSt) (ws : List String) : DSt × String :=
   | ["beh", c, n, o] =>
     match c.toNat?, n.toNat?, (match o with | "err" => some Outcome.err | "panic" => some Outcome.panic | "nil" => some Outcome.nilOut | _ => none) with
     | some c, some n, some o => ({ d with behC := d.behC ++ [(c, n, o)] }, "ok")
+    | _, _, _ => (d, "bad-op")
+  | ["nbeh", c, n, k] =>
+    match c.toNat?, n.toNat?, k.toNat? with
+    | some c, some n, some k => ({ d with behNil := d.behNil ++ [(c, n, k)] }, "ok")
     | _, _, _ => (d, "bad-op")
   | ["cbeh", c, n] =>
     match c.toNat?, n.toNat? with
